@@ -152,6 +152,13 @@ namespace TrRouting
        * @return int The converted integer
        */
       static int getIntegerValue(std::string strValue);
+
+      /**
+       * @brief Helper function to get a coordinate (floating point) value from
+       * a string. Throws if the whole string is not a number (std::stod alone
+       * accepts any numeric prefix).
+       */
+      static double getCoordinateValue(const std::string &strValue);
   };
 
   class RouteParameters : public CommonParameters {
